@@ -4,8 +4,50 @@
 #include <cstdio>
 #include <cstdlib>
 #include <vector>
+#include <thread>
+#include <chrono>
+#include <unistd.h>
+#include <atomic>
+#include <cstring>
+// threaded stress witness (schedule dependent; an observed loss/duplicate/reorder is a violation, a clean run proves nothing)
+static int stress(bool mpmc)
+{
+  const long N = 200000; int bad = 0;
+  // watchdog: a lost or duplicated ticket leaves producers/consumer spinning for ever
+  std::thread([]{ std::this_thread::sleep_for(std::chrono::seconds(30)); printf("threads still spinning after 30 s (element lost or slot never released)\nVIOLATED\n"); fflush(stdout); _exit(1); }).detach();
+  for (int round = 0; round < 3 && !bad; ++round)
+  {
+    static long cells[2][200001]; std::vector<unsigned char> seen0(N + 1), seen1(N + 1); long last0 = 0, last1 = 0, got_n = 0;
+    if (mpmc)
+    {
+      ff::uMPMC_Ptr_Queue q; q.init(2, 2);
+      auto prod = [&](int w) { for (long i = 1; i <= N; ++i) { cells[w][i] = i; q.push(&cells[w][i]); } };
+      std::thread a(prod, 0), b(prod, 1);
+      std::thread c([&]{ long spins = 0; while (got_n < 2 * N && spins < 2000000000L) { void *p = nullptr; if (!q.pop(&p)) { ++spins; continue; }
+          int w = (long*)p >= cells[1] ? 1 : 0; long v = (long*)p - cells[w]; ++got_n;
+          if (v < 1 || v > N) { ++bad; continue; }
+          unsigned char& s = w ? seen1[v] : seen0[v]; if (s++) ++bad; long& last = w ? last1 : last0; if (v <= last) ++bad; last = v; } });
+      a.join(); b.join(); c.join();
+      if (got_n != 2 * N) ++bad;
+      printf("round %d: uMPMC 2 producers x %ld, popped %ld, anomalies %d\n", round, N, got_n, bad);
+    }
+    else
+    {
+      ff::SWSR_Ptr_Buffer s(2); s.init();
+      std::thread a([&]{ for (long i = 1; i <= N; ++i) { cells[0][i] = i; while (!s.push(&cells[0][i])) ; } });
+      std::thread c([&]{ long spins = 0; while (got_n < N && spins < 2000000000L) { void *p = nullptr; if (!s.pop(&p)) { ++spins; continue; } long v = (long*)p - cells[0]; ++got_n; if (v != last0 + 1) ++bad; last0 = v; } });
+      a.join(); c.join();
+      if (got_n != N) ++bad;
+      printf("round %d: SWSR 1 producer x %ld, popped %ld, anomalies %d\n", round, N, got_n, bad);
+    }
+  }
+  printf("%s\n", bad ? "VIOLATED" : "ok");
+  fflush(stdout); _exit(bad ? 1 : 0);
+}
 int main(int argc, char **argv)
 {
+  if (argc >= 2 && !strcmp(argv[1], "thr-mpmc")) return stress(true);
+  if (argc >= 2 && !strcmp(argv[1], "thr-swsr")) return stress(false);
   if (argc < 4) return 2;
   const int layer = atoi(argv[1]); const unsigned long nq = atoi(argv[2]), sz = atoi(argv[3]);
   ff::uMPMC_Ptr_Queue q; ff::uSWSR_Ptr_Buffer u(sz); ff::SWSR_Ptr_Buffer s(sz);
